@@ -291,7 +291,7 @@ func (s *Solver) Values(vars []*Term) (map[string]uint64, bool) {
 			if len(pair.list) != 2 {
 				continue
 			}
-			name := strings.Trim(pair.list[0].atom, "|")
+			name := strings.TrimPrefix(strings.Trim(pair.list[0].atom, "|"), "in.")
 			v, ok := sexpValue(pair.list[1])
 			if !ok {
 				s.Errors = append(s.Errors, "get-value: cannot parse value for "+name+": "+pair.list[1].String())
